@@ -163,4 +163,82 @@ PROPS = {
         assumptions=["the code refuses empty names under a non-empty allow-list (stricter than required; modelled as is); an empty Link.WorkflowEvent.namespace inside an otherwise skippable event is not offered to the matcher - not compared, outside the property"],
         timeout={"quick": 900, "thorough": 3600},
     ),
+    "C17": {'engine': 'TestC17',
+ 'lean_modules': ['S2S.Props.C17'],
+ 'required_theorems': ['C17_valid_iff_standard_utf8',
+                       'C17_output_is_standard_utf8',
+                       'C17_valid_unchanged',
+                       'C17_output_valid',
+                       'C17_idempotent',
+                       'C17_valid_prefix_kept',
+                       'C17_bad_run_one_replacement',
+                       'C17_decomposition',
+                       'C17_decomposition_exists_unique',
+                       'C17_chain_within_bound',
+                       'C17_chain_beyond_bound',
+                       'C17_chain_state',
+                       'C17_codec_transparent',
+                       'C17_codec_repair_entered_iff',
+                       'C17_codec_no_corruption',
+                       'C17_codec_error_is_delegates',
+                       'C17_codec_faithful_partial',
+                       'C17_codec_faithful_of_roundtrip',
+                       'C17_blob_transparent',
+                       'C17_blob_changed_only_by_full_repair',
+                       'C17_blob_unrepairable_reported_refuted',
+                       'C17_blob_unrepairable_reported_partial',
+                       'C17_blob_unrepairable_reported_fixed'],
+ 'rule': "(a) Go's utf8.ValidString / strings.ToValidUTF8(s, U+FFFD) vs the model on ALL byte strings of length <= 2, a 29^3 boundary-byte slice of "
+         'length 3 (thorough: ALL 2^24 strings of length 3), boundary slices of length 4-5 and 10^4 (thorough 10^6) structured random strings (valid '
+         'runes at every size boundary, truncated sequences, overlongs, surrogates, > U+10FFFF, stray continuations, FE/FF, embedded U+FFFD); (b) '
+         'failure chains of depth 0..12 with invalid bytes at every position through the real generated compat.RepairInvalidUTF8 inside 7 kinds of '
+         'legacy carrier messages (every failure path of HistoryEvent, StreamWorkflowReplicationMessagesResponse, PollWorkflowTaskQueueResponse, '
+         '...); (c) the real registered gRPC codec (compat.GetCodec().Unmarshal) on wire bytes marshalled from LEGACY gogo messages (proto/1_22) of '
+         'every convertible request/response type (172; 21 carry failures): random valid messages, invalid UTF-8 in 1-3 failure chains (lists/maps '
+         'with several elements, every oneof branch), chains of depth 9/10/11/12, invalid UTF-8 in other string fields, truncated / byte-garbled / '
+         'bit-flipped encodings, non-Marshaler and non-convertible types. The op line carries the stage outcomes determined by the harness with '
+         "independent means (standard codec, gogo codec, its own reflection walker restating 'repair'); the Lean decision function predicts the "
+         "codec's result, error stage (read from the codec's logger) and whether the repair path ran. Monitor (no model): accepted by the standard "
+         'codec => proto.Equal to the standard result and repair never ran; success after rejection => proto.Equal to the standard decode of the '
+         'harness-sanitised copy and no invalid string left; repairable => no error. (d) history blobs: batches of 1-4 legacy HistoryEvents '
+         'serialised with the legacy serializer, driven through the exported namespace translator on GetWorkflowExecutionRawHistoryV2Response (same '
+         'kinds of corruption; namespace matches present/absent); the Lean blobTranslate predicts result/matched/log line; monitor: accepted blobs '
+         'are only translated, repairable ones decode to the translated standard decode of the sanitised copy, and a rejected blob never passes '
+         'without an error (fires: known finding C17-blob-unrepairable-passed-silently). Non-trivial = input with invalid UTF-8 somewhere; distinct '
+         'by input bytes.',
+ 'assumptions': ['protobuf-go, gogo/protobuf and the legacy round trip are libraries: modelled as stage outcomes, validated on every run '
+                 '(proto.Equal against the sanitised copy)',
+                 "an 'older server' message is a message marshalled by the proto/1_22 gogo types",
+                 'the conversion tables are unexported: convertibility is restated (service request/response type with a registered legacy '
+                 'counterpart) and compared with what the real codec logs'],
+ 'timeout': {'quick': 900, 'thorough': 7200}},
+    "C18": {'engine': 'TestC18',
+ 'extract': 'typegraph,repairpaths',
+ 'lean_modules': ['S2S.Props.C18'],
+ 'required_theorems': ['C18_visitor_is_pointwise',
+                       'C18_visitor_repairs_everything',
+                       'C18_visitor_misses_unknown_patterns',
+                       'C18_oracle_covered',
+                       'C18_oracle_exhaustive',
+                       'C18_known_missed_genuine',
+                       'C18_full_iff_no_findings',
+                       'C18_every_root_reaches_and_is_handled',
+                       'C18_all_at_once'],
+ 'rule': 'roots = every AdminService/WorkflowService request/response type the real codec can down-convert (convertibility measured through '
+         'compat.GetCodec() on bytes with 0xFF in a string field) that reaches a failure, plus legacy HistoryEvent (history blobs), plus every other '
+         'type of their struct graph with a case of its own in the generated switch; ORACLE = all structural paths root -> failure.v1.Failure by Go '
+         'reflection over the proto/1_22 gogo structs (pointer, repeated, map, every oneof wrapper from XXX_OneofWrappers; Failure.Cause cut; other '
+         'type recursion bounded at 2 unrollings - none occurs). Every (root, path) is exercised on the real compat.RepairInvalidUTF8 bare and '
+         'inside a randomly filled message (op path/pathf); for the 21 service roots the same message is also marshalled with the legacy schema and '
+         'decoded by the real registered codec into the CURRENT type (op wire: must be ok-repaired, proto.Equal to the standard decode of the '
+         'sanitised copy, no invalid string left); then random multi-path values: 2-6 failures invalid at once, lists/maps with up to 3 elements, '
+         'chains of depth 1-10 with invalid bytes at random positions (op multi). The extraction step measures the same thing and regenerates the '
+         'Lean facts; the Lean driver predicts each op from the measured set. Monitor: after the call every Failure.Message reachable by an '
+         'independent reflection walk (any field, list, map, oneof; causes to depth 10) must be valid; a miss is reported with root, path and replay '
+         'op, tagged C18-missed-path-<root>-<path>. Exhaustive over (root, path); distinct by op.',
+ 'assumptions': ['the oracle is computed over the Go structs of /repo/proto/1_22 (what an older server can send), not over the current API',
+                 "the conversion tables are unexported: the set of convertible roots is measured through the real codec's log line ('could not "
+                 "convert ...')",
+                 'chains deeper than 10 are C17(ii) (reported as an error), not a missed path'],
+ 'timeout': {'quick': 900, 'thorough': 3600}},
 }
